@@ -128,6 +128,13 @@ def gen_repo(rng, portable=False, cfg=None):
             p = 'metadata/' + rng.choice(META_IGN)
             tree.append({'p': p, 'k': 'file', 'c': 'ts\n'})
             roles['ignored_present'].append(p)
+    # plain directories that get no Manifest of their own (their files belong to the Manifest above them)
+    if rng.random() < cfg.get('p_plain_dirs', 0.3):
+        for p in rng.sample(['scripts/bootstrap.sh', 'scripts/fixup.sh', 'metadata/install-qa-check.d/60python',
+                             'zz-local-notes/README', 'aaa-first/x'], rng.choice([1, 2, 3])):
+            if p.startswith('metadata/') and 'metadata' not in roles['manifest_dirs']:
+                continue
+            add(p)
     # ignored top-level things
     if not cfg.get('no_ignored_dirs'):
         for d in TOP_IGNORED:
